@@ -217,6 +217,12 @@ static void c10_case (long idx, vf_rng *r)
             }
             if (i < n && ((got ^ got2) & dmask)) { snprintf (key, sizeof key, "C10:accessor-vs-direct:write:%s", rp_name (f)); vf_violation (key, "%08x at x=%d: direct image stores %x, accessor image %x", a[i], off + i, got & dmask, got2 & dmask); break; }
         }
+        /* everything outside the stored span must be identical too (both buffers started with the same noise) */
+        for (size_t bit = 0; bit < (size_t)D.rowbytes * 8; bit++) {
+            if (bit >= (size_t)off * bpp && bit < (size_t)(off + n) * bpp) continue;
+            const uint8_t *r1 = vf_buf_row (&D, 0), *r2 = vf_buf_row (&D2, 0);
+            if (((r1[bit / 8] ^ r2[bit / 8]) >> (bit % 8)) & 1) { snprintf (key, sizeof key, "C10:accessor-vs-direct:write-neighbour:%s", rp_name (f)); vf_violation (key, "storing pixels %d..%d: bit %zu (pixel %zu) outside the span differs between the direct and the accessor image", off, off + n - 1, bit, bit / bpp); break; }
+        }
         if (acc_writes == w0) { snprintf (key, sizeof key, "C10:accessor-bypassed:write:%s", rp_name (f)); vf_violation (key, "the write callback was never called"); }
         if (acc_oob) { snprintf (key, sizeof key, "C10:accessor-out-of-bounds:%s", rp_name (f)); vf_violation (key, "%ld accessor calls outside the image storage", acc_oob); }
         vf_count ("evaluations", ne); vf_count ("accessor_writes", acc_writes - w0);
@@ -251,7 +257,8 @@ static void c10_case (long idx, vf_rng *r)
         for (int t = 0; t < 60; t++) {
             int w = (int)vf_range (r, 4, 40), x = (int)vf_range (r, 0, w - 1), k = (int)vf_range (r, 1, 3); if (x + k > w) k = w - x;
             vf_buf D; vf_buf_alloc (&D, f, w, 2, (int)(vf_next (r) % 2), 0, vf_default_place (r)); vf_buf_fill_random (&D, r); vf_buf_snapshot (&D);
-            pixman_image_t *d = vf_buf_image (&D); if (pal) pixman_image_set_indexed (d, pal);
+            int via_acc = !rp_is_float (f) && vf_chance (r, 1, 2);   /* float formats are outside pixman_format_supported_*: no accessor claim */
+            pixman_image_t *d = via_acc ? accessor_image (&D) : vf_buf_image (&D); if (pal) pixman_image_set_indexed (d, pal);
             pixman_color_t c = { (uint16_t)vf_next (r), (uint16_t)vf_next (r), (uint16_t)vf_next (r), (uint16_t)vf_next (r) }; pixman_image_t *sol = pixman_image_create_solid_fill (&c);
             static const pixman_op_t ops[] = { PIXMAN_OP_SRC, PIXMAN_OP_OVER, PIXMAN_OP_ADD, PIXMAN_OP_XOR };
             int yy = (int)(vf_next (r) % 2);
@@ -263,7 +270,7 @@ static void c10_case (long idx, vf_rng *r)
                 for (size_t bit = 0; bit < (size_t)D.rowbytes * 8; bit++) {
                     if (y == yy && bit >= lo && bit < hi) continue;
                     ne++;
-                    if (((row[bit / 8] ^ old[bit / 8]) >> (bit % 8)) & 1) { snprintf (key, sizeof key, "C10:store-touches-neighbour:%s", rp_name (f)); vf_violation (key, "storing %d pixel(s) at x=%d of a %d-pixel row changed bit %zu of row %d (pixel %zu)", k, x, w, bit, y, bit / bpp); t = 60; y = 2; break; }
+                    if (((row[bit / 8] ^ old[bit / 8]) >> (bit % 8)) & 1) { snprintf (key, sizeof key, "C10:store-touches-neighbour:%s%s", rp_name (f), via_acc ? ":accessors" : ""); vf_violation (key, "storing %d pixel(s) at x=%d of a %d-pixel row changed bit %zu of row %d (pixel %zu)%s", k, x, w, bit, y, bit / bpp, via_acc ? " (accessor image)" : ""); t = 60; y = 2; break; }
                 }
             }
             pixman_image_unref (d); pixman_image_unref (sol); vf_buf_free (&D);
